@@ -21,9 +21,14 @@ Interfaces: tokenize(code: str) -> list[str],
 Implementation: Token-based normalization with rolling window algorithm, language-agnostic approach
 """
 
+import re
+
 # Pre-compiled import token set for O(1) membership test
 _IMPORT_TOKENS: frozenset[str] = frozenset(("{", "}", "} from"))
-_IMPORT_PREFIXES: tuple[str, ...] = ("import ", "from ", "export ")
+_IMPORT_PREFIXES: tuple[str, ...] = ("import ", "from ")
+# Re-exports (export { a } from "./a", export * from "./b", export type { T }) are import-like;
+# an exported declaration (export const limit = compute(1)) is ordinary code
+_REEXPORT = re.compile(r"export\s+(?:\*|\{|type\s*\{)")
 
 
 def tokenize(code: str) -> list[str]:
@@ -159,7 +164,9 @@ def _is_import_statement(line: str) -> bool:
     Returns:
         True if line is an import statement
     """
-    return line.startswith(_IMPORT_PREFIXES) or line in _IMPORT_TOKENS
+    if line.startswith(_IMPORT_PREFIXES) or line in _IMPORT_TOKENS:
+        return True
+    return _REEXPORT.match(line) is not None
 
 
 def rolling_hash(lines: list[str], window_size: int) -> list[tuple[int, int, int, str]]:
